@@ -33,3 +33,20 @@ package s1
 //@   ensures [special-unchanged] c.isSpecial() ==> result == c
 //@   ensures [clamped] c.isValid() && !c.isSpecial() && e == e ==> result >= 0 && result <= 4
 //@   ensures [grows] c.isValid() && !c.isSpecial() && e >= 0 ==> result >= c
+
+//@ func ChordAngleFromSquaredLength(length2 float64) ChordAngle
+//@   fp
+//@   ensures [clamped] length2 == length2 ==> result <= 4
+//@   ensures [identity] length2 <= 4 ==> float64(result) == length2
+
+// the special values are ordered Negative < 0 <= ordinary <= 4 (Straight) < Infinity; the step between ordinary values
+// is math.Nextafter, which is not modelled
+//@ func (c ChordAngle) Successor() ChordAngle
+//@   fp
+//@   ensures [after-straight] c >= 4 ==> result.IsInfinity()
+//@   ensures [after-negative] c < 0 ==> result == 0
+
+//@ func (c ChordAngle) Predecessor() ChordAngle
+//@   fp
+//@   ensures [before-zero] c <= 0 ==> result < 0
+//@   ensures [before-infinity] c > 4 ==> result == 4
